@@ -71,6 +71,14 @@ def gen_livechain(rng, tier, n):
     """handlers of resumable subscriptions that publish while handling a live event (C03: callbacks may re-enter the bus)"""
     return [["kind mem", "plan - -", "livechain %s %d %d" % (rng.choice(["mem", "mem", "sqlite"]), rng.randint(2, 9), rng.randint(0, 1))] for _ in range(n)]
 
+def gen_livepanic(rng, tier, n):
+    """the handler of a resumable subscription panics on a live event (C05: contained, the bus stays usable)"""
+    out = []
+    for _ in range(n):
+        m = rng.randint(1, 7)
+        out.append(["kind mem", "plan - -", "livepanic %s %d %d %d" % (rng.choice(["mem", "mem", "sqlite"]), m, rng.randint(1, m), rng.randint(0, 1))])
+    return out
+
 def gen_racepub(rng, tier, n):
     return [["kind mem", "plan - -", "racepub %d %d" % (rng.randint(2, 8), rng.choice([100, 300]))] for _ in range(n)]
 
@@ -83,6 +91,8 @@ def nontrivial(prop, lines, impl):
         return bool(impl) and impl[0] == "panicresume ok"
     if any(l.startswith("livechain") for l in lines):
         return bool(impl) and impl[0] == "livechain ok"
+    if any(l.startswith("livepanic") for l in lines):
+        return bool(impl) and impl[0] == "livepanic ok"
     return bool(impl) and any(l.startswith("id ") and "delivered=-" not in l for l in impl) and any(l == "restart" for l in lines[:-3])
 
 def property_fails(prop, lines, impl, model):
